@@ -1,7 +1,8 @@
 #!/bin/bash
 # tools/validate_seed.sh <dir with patch.diff and demo.py|test_demo.py>
 # confirms in a scratch worktree: demo passes on the clean tree, fails with the patch, baseline tests still pass with the patch
-d="$(cd "$1" && pwd)"; wt="${SFV_SEED_WT:-/work/int/repo}"
+d="$(cd "$1" && pwd)"; wt="${SFV_SEED_WT:-/tmp/sfv-seed-wt-val}"
+[ -d "$wt" ] || git -C /repo worktree add -q --detach "$wt" HEAD   # scratch worktree, removed again at the end
 # the demos are written to be run from inside the worktree (`python _seed/<n>/demo.py`; several derive the streamflow root
 # from their own location): copy the seed directory to the same relative place in the scratch worktree
 lane="$(basename "$wt")"
@@ -35,3 +36,4 @@ miss=sorted(stable-passed)
 print(f"baseline with patch: {len(stable)-len(miss)}/{len(stable)} stable tests pass", ("MISSING: "+", ".join(miss[:5])) if miss else "")
 PY
 git -C "$wt" checkout -q -- . && git -C "$wt" clean -fdq
+[ -n "${SFV_SEED_KEEP_WT:-}" ] || git -C /repo worktree remove --force "$wt" 2>/dev/null
